@@ -71,9 +71,10 @@ func c08Exec(run *ev.Run, c ev.Case) {
 		var b c08Batch
 		c.Decode(&b)
 		reused := gopacket.NewSerializeBuffer()
+		dec := &c08Decoders{}
 		for i := 0; i < b.Count; i++ {
-			c08Round(run, c08One{Layer: b.Layer, Seed: b.Seed, Index: i, Reused: false}, nil)
-			c08Round(run, c08One{Layer: b.Layer, Seed: b.Seed, Index: i, Reused: true}, reused)
+			c08Round(run, c08One{Layer: b.Layer, Seed: b.Seed, Index: i, Reused: false}, nil, nil)
+			c08Round(run, c08One{Layer: b.Layer, Seed: b.Seed, Index: i, Reused: true}, reused, dec)
 		}
 	case "one":
 		var o c08One
@@ -84,8 +85,26 @@ func c08Exec(run *ev.Run, c ev.Case) {
 			// reproduce some buffer history
 			gopacket.SerializeLayers(buf, serOpts, gopacket.Payload(make([]byte, o.Prefill)))
 		}
-		c08Round(run, o, buf)
+		if o.Reused {
+			// reproduce the decoder history of the batch up to this value
+			dec := &c08Decoders{}
+			for i := 0; i < o.Index; i++ {
+				c08Round(run, c08One{Layer: o.Layer, Seed: o.Seed, Index: i, Reused: true}, buf, dec)
+			}
+			c08Round(run, o, buf, dec)
+			return
+		}
+		c08Round(run, o, buf, nil)
 	}
+}
+
+// c08Decoders are decode targets that live as long as a batch: the library
+// decodes every received packet into the same layer values.
+type c08Decoders struct {
+	V1  ipmi.V1Session
+	V2  ipmi.V2Session
+	Msg ipmi.Message
+	R1  ipmi.RAKPMessage1
 }
 
 func keyedHash(r *rand.Rand) (func() hash.Hash, string) {
@@ -111,7 +130,7 @@ type truncHash struct {
 func (t truncHash) Sum(b []byte) []byte { s := t.Hash.Sum(b); return s[:len(b)+t.n] }
 func (t truncHash) Size() int           { return t.n }
 
-func c08Round(run *ev.Run, o c08One, buf gopacket.SerializeBuffer) {
+func c08Round(run *ev.Run, o c08One, buf gopacket.SerializeBuffer, rdec *c08Decoders) {
 	run.Eval(1)
 	cs := ev.MkCase("one", o)
 	r := rng(o.Seed+int64(o.Index)*7919, "c08"+o.Layer)
@@ -179,6 +198,13 @@ func c08Round(run *ev.Run, o c08One, buf gopacket.SerializeBuffer) {
 			viol("field-mismatch", fmt.Sprintf("decoded %+v from value %+v", fieldsV1(&y), fieldsV1(&x)), ev.Hex(b1))
 			return
 		}
+		if rdec != nil && dec(&rdec.V1, b1) {
+			z := &rdec.V1
+			if z.AuthType != x.AuthType || z.Sequence != x.Sequence || z.ID != x.ID || z.AuthCode != x.AuthCode || int(z.Length) != len(inner) || !bytes.Equal(z.LayerPayload(), inner) {
+				viol("field-mismatch-on-reused-decoder", fmt.Sprintf("decoded %+v from value %+v", fieldsV1(z), fieldsV1(&x)), ev.Hex(b1))
+				return
+			}
+		}
 		if !bytes.Equal(y.LayerPayload(), inner) {
 			viol("payload-mismatch", "inner payload differs", ev.Hex(b1))
 			return
@@ -232,6 +258,20 @@ func c08Round(run *ev.Run, o c08One, buf gopacket.SerializeBuffer) {
 		if !bytes.Equal(y.LayerPayload(), inner) {
 			viol("payload-mismatch", "inner payload differs", ev.Hex(b1))
 			return
+		}
+		if rdec != nil {
+			rdec.V2.IntegrityAlgorithm = nil
+			if hf != nil {
+				rdec.V2.IntegrityAlgorithm = hf()
+			}
+			if dec(&rdec.V2, b1) {
+				z := &rdec.V2
+				if z.PayloadDescriptor != x.PayloadDescriptor || z.Encrypted != x.Encrypted || z.Authenticated != x.Authenticated || z.ID != x.ID ||
+					z.Sequence != x.Sequence || int(z.Length) != len(inner) || int(z.Pad) != wantPad || !bytes.Equal(z.Signature, x.Signature) || !bytes.Equal(z.LayerPayload(), inner) {
+					viol("field-mismatch-on-reused-decoder", fmt.Sprintf("decoded %v from value %v into a layer used before", fieldsV2(z), fieldsV2(&x)), ev.Hex(b1))
+					return
+				}
+			}
 		}
 		// structure of the trailer as the specification lays it out
 		if x.Authenticated {
@@ -289,6 +329,14 @@ func c08Round(run *ev.Run, o c08One, buf gopacket.SerializeBuffer) {
 		if !bytes.Equal(y.LayerPayload(), inner) {
 			viol("payload-mismatch", fmt.Sprintf("inner payload differs: got % x want % x", y.LayerPayload(), inner), ev.Hex(b1))
 			return
+		}
+		if rdec != nil && dec(&rdec.Msg, b1) {
+			z := &rdec.Msg
+			if z.Operation != x.Operation || z.RemoteAddress != x.RemoteAddress || z.RemoteLUN != x.RemoteLUN || z.LocalAddress != x.LocalAddress ||
+				z.LocalLUN != x.LocalLUN || z.Sequence != x.Sequence || z.CompletionCode != x.CompletionCode || !bytes.Equal(z.LayerPayload(), inner) {
+				viol("field-mismatch-on-reused-decoder", fmt.Sprintf("decoded %+v from value %+v into a Message used before", fieldsMsg(z), fieldsMsg(&x)), ev.Hex(b1))
+				return
+			}
 		}
 		b2, ok := ser(&y, y.LayerPayload())
 		if ok && !bytes.Equal(b1, b2) {
@@ -378,6 +426,14 @@ func c08Round(run *ev.Run, o c08One, buf gopacket.SerializeBuffer) {
 			y.PrivilegeLevelLookup != x.PrivilegeLevelLookup || y.MaxPrivilegeLevel != x.MaxPrivilegeLevel || y.Username != x.Username {
 			viol("field-mismatch", fmt.Sprintf("decoded %+v from %+v", y, x), ev.Hex(b1))
 			return
+		}
+		if rdec != nil && dec(&rdec.R1, b1) {
+			z := &rdec.R1
+			if z.Tag != x.Tag || z.ManagedSystemSessionID != x.ManagedSystemSessionID || z.RemoteConsoleRandom != x.RemoteConsoleRandom ||
+				z.PrivilegeLevelLookup != x.PrivilegeLevelLookup || z.MaxPrivilegeLevel != x.MaxPrivilegeLevel || z.Username != x.Username {
+				viol("field-mismatch-on-reused-decoder", fmt.Sprintf("decoded %+v from %+v", *z, x), ev.Hex(b1))
+				return
+			}
 		}
 		if err := gopacket.SerializeLayers(buf, serOpts, &y); err != nil || !bytes.Equal(buf.Bytes(), b1) {
 			viol("reserialise-mismatch", fmt.Sprintf("err %v first % x second % x", err, b1, buf.Bytes()), nil)
